@@ -69,8 +69,13 @@ claim("C18",
       "The PodGroup is updated only after ignoreFields and only behind !podGroupsEqual on its result, created only behind NotFound; ignoreFields restores Spec.MarkUnschedulable/SchedulingBackoff/Queue on every path and the node-pool and queue labels whenever the stored object has them; labels/annotations are compared computed→stored like the update copies them; an empty omitempty collection cannot make an unchanged workload unequal; the grouper uses no clock/random/uuid and no unsorted map iteration feeds an ordered value; PodGroup names depend on the pod only for the reviewed per-pod kinds. Cross-reconcile relations are not decided.",
       NOTE)
 
+claim("C19",
+      "compile-time constant comparison of annotation keys, sibling agreement of every strconv.Parse* call per annotation key across the whole repository (provenance of the parsed string from an Annotations lookup), NaN-preserving positive-form range facts on the validator's accepting paths and on the scheduler's request-type stores, field coverage of the conflict check, per-path return facts of admission's Validate, must-pass-through of validation on pod updates, upsert shape of the mutation helpers",
+      "Scheduler and admission/binder read the same annotation keys; each GPU annotation is parsed with one strconv function and bit size in every component; the validator accepts, and the scheduler creates a sharing request, only behind parsed ∧ 0 < value (∧ upper bound) established in positive form (NaN excluded); the whole-GPU conflict check covers init containers; admission accepts only with sharing enabled or no sharing annotation, after ValidateGpuRequests; every update of a pod of this scheduler is validated; the mutation helpers replace-by-name before appending. String-level corner cases inside an accepted cell are not decided.",
+      NOTE)
+
 NA = {
     "C15": "quantifies over infinite executions of a closed system (lasso freedom); no static shape of the code settles it. Its three guards (strict saturation comparison with multiplier >= 1, strictly-lower priority for preempt, consolidation only when all victims are re-placed) are decided as clauses of C07 and C06.",
 }
-for _p in ["C04","C05","C09","C16","C19","C20"]:
+for _p in ["C04","C05","C09","C16","C20"]:
     NA.setdefault(_p, "check under construction in this session (see DESIGN.md §4 for the planned static obligations); not claimed until the check exists")
